@@ -143,12 +143,11 @@ func sizeof(v reflect.Value) int {
 	sum := 0
 	switch v.Kind() {
 	case reflect.Map:
-		keys := v.MapKeys()
-		for i := 0; i < len(keys); i++ {
-			mapkey := keys[i]
-			s := sizeof(mapkey)
+		// walk the entries: a key that is not equal to itself (NaN) cannot be looked up with MapIndex
+		for iter := v.MapRange(); iter.Next(); {
+			s := sizeof(iter.Key())
 			sum += s
-			s = sizeof(v.MapIndex(mapkey))
+			s = sizeof(iter.Value())
 			sum += s
 		}
 	case reflect.Slice, reflect.Array:
